@@ -367,8 +367,8 @@ Definition cnt_of (k : kind) (h : N) : N :=
   let c := N.land (N.shiftr h 16) 7 in
   match k with
   | KProp => nth (N.to_nat c) [0; 1; 1; 2; 1; 0; 3; 1] 0
-  | KAtt => nth (N.to_nat c) [0; 1; 1; 1; 1; 0; 1; 1] 0
-  | KSync => nth (N.to_nat c) [0; 1; 0; 1; 1; 0; 1; 0] 0
+  | KAtt => nth (N.to_nat c) [0; 1; 1; 1; 1; 0; 2; 1] 0
+  | KSync => nth (N.to_nat c) [0; 1; 0; 1; 2; 0; 1; 0] 0
   end.
 
 Definition payload_of (ep h j : N) : N := ep * 32 + N.land (N.land (N.shiftr h 8) 31 + 7 * j) 31.
